@@ -500,7 +500,8 @@ func main() {
 			if timedOut == nil {
 				timedOut = s
 			}
-		case strings.Contains(s.output, "HARNESS-ERROR"):
+		case strings.Contains(s.output, "HARNESS-ERROR") || strings.Contains(s.output, "[rapid] panic after"):
+			// a panic that reaches rapid comes from the harness (the engine is always called under recover)
 			if harnessErr == nil {
 				harnessErr = s
 			}
@@ -627,7 +628,11 @@ func main() {
 		os.Exit(1)
 	}
 	if harnessErr != nil {
-		fmt.Println(excerpt(harnessErr.output, "HARNESS-ERROR", 6000))
+		if strings.Contains(harnessErr.output, "HARNESS-ERROR") {
+			fmt.Println(excerpt(harnessErr.output, "HARNESS-ERROR", 6000))
+		} else {
+			fmt.Println(tail(harnessErr.output, 6000))
+		}
 		fail2("harness error in shard %d (exit %d)", harnessErr.idx, harnessErr.exit)
 	}
 	if timedOut != nil {
